@@ -178,8 +178,8 @@ fn run_child_inner(dir: &Path, cfg: &DbCfg, die_at: Option<usize>) -> ChildResul
             Ok(None) => {}
             Err(_) => {}
         }
-        std::thread::sleep(Duration::from_millis(if start.elapsed() < Duration::from_secs(3) { 4 } else { 200 }));
-        if start.elapsed() > Duration::from_secs(3) {
+        std::thread::sleep(Duration::from_millis(if start.elapsed() < Duration::from_secs(2) { 4 } else { 200 }));
+        if start.elapsed() > Duration::from_secs(2) {
             let t = child_cpu_ticks(pid);
             if t.saturating_sub(last) == 0 {
                 idle += 1;
@@ -187,7 +187,7 @@ fn run_child_inner(dir: &Path, cfg: &DbCfg, die_at: Option<usize>) -> ChildResul
                 idle = 0;
             }
             last = t;
-            let hung = idle >= 20; // 4 s without a single clock tick of CPU
+            let hung = idle >= 12; // 2.4 s without a single clock tick of CPU
             if hung || start.elapsed() > Duration::from_secs(90) {
                 let _ = child.kill();
                 let _ = child.wait();
@@ -456,7 +456,7 @@ fn run_history(id: String, seed: u64, cfg: DbCfg, letters: Vec<u8>, max_images: 
                 if *progressed {
                     out.inconclusive.push(format!("child open exceeded 90 s with CPU still advancing: {}", describe("")));
                 } else {
-                    out.fail(Failure::new("crash", "open_never_terminates", &format!("{}|{}|{}", phase, flush_step, panic_site(stderr)), describe(&format!("LocustDB::new made no progress for 4 s: {}", tail(stderr))), image_case.clone()));
+                    out.fail(Failure::new("crash", "open_never_terminates", &format!("{}|{}|{}", phase, flush_step, panic_site(stderr)), describe(&format!("LocustDB::new made no progress for 2.4 s: {}", tail(stderr))), image_case.clone()));
                 }
             }
         }
